@@ -112,7 +112,7 @@ func c11Model(c *ctx, pool *c11Pool, cases []c11Case, outs []c11Outcome) {
 			}
 			continue
 		}
-		if o.A == "timeout" {
+		if o.A == "timeout" || o.A == "oom" {
 			continue
 		}
 		switch k.Decoder {
